@@ -1,8 +1,9 @@
 (* C17 - safe API calls never access memory outside the buffers they were given: the LOGIC of addressing.
    Pinned statements only.  Partial by nature (DESIGN.md C17): intrinsic bodies, assembly, uninitialised memory and the
    allocator are observed by the harness, not proved. *)
-From PV Require Import Base.MachineInt Model.Znx Model.Limbs Model.Ring Model.Flat Model.C12Scratch
-  Model.C17Mem Model.C17Ops Model.C17Run Proofs.C17Bounds Proofs.C17Total Proofs.C17Compact Proofs.C17Hist Proofs.C17Main.
+From PV Require Import Base.MachineInt Model.Znx Model.Limbs Model.LimbsBig Model.Ring Model.DftAbs Model.Flat Model.C12Scratch
+  Model.C17Mem Model.C17Ops Model.C17Ops2 Model.C17Run Proofs.C17Bounds Proofs.C17Total Proofs.C17Total2 Proofs.C17Compact Proofs.C17Hist
+  Proofs.C17Main Proofs.C17Main2.
 From Coq Require Import Arith PeanoNat.
 Open Scope Z_scope.
 
@@ -78,8 +79,8 @@ Theorem C17_constructors_establish_inv :
   (forall n rows cin cout size w, 0 <= n -> 0 <= rows -> 0 <= cin -> 0 <= cout -> 0 <= size -> 0 < w ->
       wf_m (m_alloc n rows cin cout size w) /\ InvM (m_alloc n rows cin cout size w)) /\
   (forall n rows cin cout size w len m, m_from_bytes n rows cin cout size w len = Some m -> InvM m) /\
-  (* the UNCHECKED from_data (VecZnxBig, VecZnxDft, SvpPPol, MatZnx, VmpPMat, CnvPVec): exactly when the caller's buffer is
-     large enough - nothing checks it *)
+  (* the unchecked form (today only a struct literal through the PUBLIC FIELDS of VecZnx / ScalarZnx / VecZnxBig /
+     VecZnxDft / SvpPPol; every from_data asserts since 2067fe8 / 122d562): exactly when the buffer is large enough *)
   (forall len n cols size w, Inv (v_from_data len n cols size w) <-> n * cols * size * w <= len).
 Proof. exact constructors_establish_inv. Qed.
 Print Assumptions C17_constructors_establish_inv.
@@ -139,7 +140,8 @@ Theorem C17_take_zero_outside_refuted :
 Proof. exact take_zero_outside_refuted. Qed.
 Print Assumptions C17_take_zero_outside_refuted.
 
-(* ---- histories of the harness: every history establishes Inv, except from_data of a layout that does not validate ---- *)
+(* ---- histories of the harness: every history establishes Inv (chk: from_data validates its buffer, which every layout
+   does since 2067fe8 / 122d562) ---- *)
 Theorem C17_histories_establish_inv : forall vec chk n cols size w hist hp1 hp2 v,
   0 <= n -> 0 <= cols -> 0 <= size -> 0 < w -> 0 <= hp1 -> 0 <= hp2 ->
   (hist = 9 -> chk = true) ->
@@ -147,10 +149,6 @@ Theorem C17_histories_establish_inv : forall vec chk n cols size w hist hp1 hp2 
 Proof. exact histories_inv. Qed.
 Print Assumptions C17_histories_establish_inv.
 
-Theorem C17_history_from_data_unchecked_refuted :
-  exists n cols size w hp1 v, 0 < w /\ hist_hdr false false n cols size w (cols * size) 9 hp1 0 = HOk v /\ ~ Inv v.
-Proof. exact history_from_data_unchecked_refuted. Qed.
-Print Assumptions C17_history_from_data_unchecked_refuted.
 
 (* ---- op_total: no loop of the modelled reference operations indexes outside its operands ---- *)
 Theorem C17_op_total_limbs : forall w b off k a r0 ov,
@@ -176,6 +174,60 @@ Theorem C17_op_total_vec : forall w n p f a b r0,
   vec_switch_ring_c n a r0 = Some (vec_switch_ring n a r0).
 Proof. exact (fun w n p f a b r0 => op_total_vec w n p f a b r0). Qed.
 Print Assumptions C17_op_total_vec.
+
+(* cross-radix normalisation: the i64 routine (gap cap 128), the big-accumulator copy (cap 192) and the same-radix big
+   routine (cap as a parameter) perform no access outside their operands (outer Some) and return what the shared models
+   return (inner option = the routine's own fuel) *)
+Theorem C17_op_total_cross : forall w (cap_small : Z) rb ab off b (cap : nat) a r0,
+  1 <= rb -> 1 <= ab ->
+  normalize_cross_gc w 128 rb ab off a r0 = Some (normalize_cross w rb ab off a r0) /\
+  normalize_cross_gc w 192 rb ab off a r0 = Some (normalize_cross_big w rb ab off a r0) /\
+  normalize_inter_cc w cap b off a r0 = Some (LimbsBig.normalize_inter_c w cap b off a r0).
+Proof. exact op_total_cross. Qed.
+Print Assumptions C17_op_total_cross.
+
+(* together with C08_normalize_cross_total (the fuel is never exhausted) *)
+Theorem C17_op_total_cross_64 : forall rb ab off a r0,
+  1 <= rb -> 1 <= ab ->
+  exists r, normalize_cross_gc 64 128 rb ab off a r0 = Some (Some r) /\ normalize_cross 64 rb ab off a r0 = Some r.
+Proof. exact op_total_cross_64. Qed.
+Print Assumptions C17_op_total_cross_64.
+
+(* add_scalar / sub_scalar, the switch_ring kernel on divisible ring degrees, split_ring parts, merge_rings *)
+Theorem C17_op_total_scalar_rings : forall w,
+  (forall n sub a b b_limb r0, vec_add_scalar_c w n sub a b b_limb r0 = Some (vec_add_scalar w n sub a b b_limb r0)) /\
+  (forall sub a res_limb r0, vec_add_scalar_assign_c w sub a res_limb r0 = vec_add_scalar_assign w sub a res_limb r0) /\
+  (forall n_out r0 a, (0 < n_out)%nat -> (0 < length a)%nat ->
+      (exists g, (0 < g)%nat /\ (length a = g * n_out \/ n_out = g * length a)%nat) ->
+      znx_switch_ring_c n_out r0 a = Some (znx_switch_ring n_out r0 a)) /\
+  (forall n_in n_out i a r0, (0 < n_out)%nat -> (0 < n_in)%nat -> (exists g, (0 < g)%nat /\ n_in = (g * n_out)%nat) ->
+      limbs_wf n_in a -> vec_split_part_c w n_out i a r0 = Some (vec_split_part w n_out i a r0)) /\
+  (forall n_in n_out parts r0, (0 < length parts)%nat -> n_out = (length parts * n_in)%nat -> Forall (limbs_wf n_in) parts ->
+      vec_merge_rings_c n_out parts r0 = Some (vec_merge_rings n_out parts r0)).
+Proof. exact op_total_scalar_rings. Qed.
+Print Assumptions C17_op_total_scalar_rings.
+
+(* DFT-domain shape functions: every limb index offset + j*step, j + shift, j - shift, and every flat vmp index (q, c + off)
+   is inside its operand *)
+Theorem C17_op_total_dft :
+  (forall n rsz step offset a, dft_select_c n rsz step offset a = Some (dft_select n rsz step offset a)) /\
+  (forall n rsz a b, dft_add_c n rsz a b = Some (dft_add n rsz a b)) /\
+  (forall n rsz a b, dft_sub_c n rsz a b = Some (dft_sub n rsz a b)) /\
+  (forall a r0, dft_add_assign_c a r0 = Some (dft_add_assign a r0)) /\
+  (forall a r0, dft_sub_assign_c a r0 = Some (dft_sub_assign a r0)) /\
+  (forall a r0, dft_sub_negate_assign_c a r0 = Some (dft_sub_negate_assign a r0)) /\
+  (forall scale a r0, dft_add_scaled_assign_c scale a r0 = Some (dft_add_scaled_assign scale a r0)) /\
+  (forall n rsz s b, svp_apply_c n rsz s b = Some (svp_apply n rsz s b)) /\
+  (forall n rcols rsz acols asz rows msize limb_offset aflat mflat c,
+      vmp_c n rcols rsz acols asz rows msize limb_offset aflat mflat c =
+      Some (vmp n rcols rsz acols asz rows msize limb_offset aflat mflat c)).
+Proof. exact op_total_dft. Qed.
+Print Assumptions C17_op_total_dft.
+
+Theorem C17_flat_checked_rejects : forall (len nrows ncols q c : nat) (f : nat -> list Z) (g : nat -> nat -> list Z),
+  ((len <= q)%nat -> flat1_c len f q = None) /\ ((nrows <= q)%nat \/ (ncols <= c)%nat -> flat2_c nrows ncols g q c = None).
+Proof. exact flat_checked_rejects. Qed.
+Print Assumptions C17_flat_checked_rejects.
 
 (* the twins really check: an index outside the operand is rejected *)
 Theorem C17_checked_access_rejects : forall l i x,
@@ -250,10 +302,15 @@ Example C17_history_example :
   (* a receiver of equal capacity keeps the writer's max_size *)
   run_c17 17000 [1; 8; 4; 3; 1; 2; 2;  1; 2; 0;  1; 1; 0;  0; 0; 0;  0; 0; 0; 0; 7] [] =
     Some [[0; 1; 0; 1]; [4; 1; 1; 3; 128; 8]] /\
-  (* VecZnxBig::from_data (NTT120: 16-byte words) on a buffer one word short: ill-formed, nothing is run *)
-  run_c17 17000 [3; 42; 4; 9; 1; 2; 0;  1; 2; 0;  1; 2; 0;  0; 0; 0;  0; 0; 0; 0; 7] [] =
-    Some [[3; 1; 0; 1]; [4; 1; 2; 2; 112; 16]].
-Proof. repeat split; vm_compute; reflexivity. Qed.
+  (* VecZnxBig::from_data (NTT120: 16-byte words) on a buffer one word short: rejected by its assert (122d562) *)
+  run_c17 17000 [3; 42; 4; 9; 1; 2; 0;  1; 2; 0;  1; 2; 0;  0; 0; 0;  0; 0; 0; 0; 7] [] = None.
+Proof. split; [vm_compute; reflexivity | split; vm_compute; reflexivity]. Qed.
+
+Example C17_cross_example :
+  normalize_cross_gc 64 128 3 5 (-2) [7; -3; 11] [0; 0; 0; 0] = Some (normalize_cross 64 3 5 (-2) [7; -3; 11] [0; 0; 0; 0]) /\
+  vec_merge_rings_c 4 [[[1; 2]]; [[3; 4]]] [[0; 0; 0; 0]] = Some [[1; 3; 2; 4]] /\
+  dft_select_c 2 3 2 1 [[1; 1]; [2; 2]; [3; 3]] = Some [[2; 2]; [0; 0]; [0; 0]].
+Proof. split; [vm_compute; reflexivity | split; vm_compute; reflexivity]. Qed.
 
 Example C17_normalize_indices_example :
   normalize_inter_c 64 4 (-9) [1; 2; 3] [0; 0; 0; 0; 0] = Some (normalize_inter 64 4 (-9) [1; 2; 3] [0; 0; 0; 0; 0]).
